@@ -70,13 +70,18 @@ def build(seed):
         v = nm("hv")
         t = rng.choice(LITERALS)
         l = lit(t)
-        form = rng.choice(["param", "var", "param_stmt", "array"])
+        form = rng.choice(["param", "var", "param_stmt", "array", "typed_array"])
         if form == "param":
             L.append(f"character(len=*), parameter :: {v} = {l}")
         elif form == "var":
             L.append(f"character(len=40) :: {v} = {l}")
         elif form == "param_stmt":
             L += [f"character(len=40) :: {v}", f"parameter ({v} = {l})"]
+        elif form == "typed_array":
+            # array constructor with a type-spec: a second `::` in a declaration that has attributes
+            l2 = lit(rng.choice(LITERALS))
+            L.append(f"character(len=40), parameter :: {v}(2) = [character(len=40) :: {l}, {l2}]")
+            checks.append({"page": mpage, "fragment": l2, "where": "initial_literal"})
         else:
             l2 = lit(rng.choice(LITERALS))
             L.append(f"character(len=40), dimension(2) :: {v} = [{l}, {l2}]")
@@ -185,6 +190,12 @@ def build(seed):
     p = nm("hp")
     bn = rng.choice(["c_name", "a<b", "x&y", "<i>n</i>", 'q"q'])
     bl = lit(bn, "'") if '"' in bn else lit(bn)
+    # a function whose binding label stands before its RESULT clause
+    fb = nm("hb")
+    bl2 = lit(rng.choice(["vol<c", "x&y", "c_fn"]), '"')
+    L += [f"function {fb}(r) bind(c, name={bl2}) result(v)", "!! bind-result func doc", "use iso_c_binding", "real(c_double), value :: r", "!! r doc", "integer(c_int) :: v", "!! v doc", "v = 1", f"end function {fb}"]
+    checks.append({"page": f"proc/{fb}.html", "fragment": "result(v)", "where": "result_clause_after_bind"})
+    checks.append({"page": f"proc/{fb}.html", "fragment": "integer(c_int)", "or": ("integer(kind=c_int)", "v"), "where": "result_clause_after_bind"})
     L += [f"subroutine {p}(a, b) bind(c, name={bl})", "!! proc doc", "use iso_c_binding", f"integer(c_int), intent(in) :: a({rng.choice(EXPRS)})", "!! a doc",
           "integer(c_int), value :: b", "!! b doc"]
     l = lit(rng.choice(LITERALS))
